@@ -88,6 +88,39 @@ class Case:
         return min([len(p) for p in self.pats] or [0])
 
 
+class PackedCase:
+    """A packed-searcher case: patterns + packed::Config."""
+
+    def __init__(self, name, pats, mk="lf", force="rk"):
+        self.name = name
+        self.pats = [p if isinstance(p, bytes) else p.encode("latin1") for p in pats]
+        self.mk, self.force = mk, force
+        self.ci, self.sk = False, "un"
+
+    @property
+    def mod(self):
+        return "gen::p_%s::C" % self.name
+
+    @property
+    def key(self):
+        return "packed:" + self.name
+
+    def line(self):
+        return "packed %s %s %s %s" % (self.name, self.mk, self.force, ",".join(p.hex() for p in self.pats))
+
+    def describe(self):
+        return {"name": self.name, "patterns": [p.decode("latin1") for p in self.pats], "match_kind": self.mk,
+                "packed_config": self.force}
+
+    @property
+    def maxlen(self):
+        return max(len(p) for p in self.pats)
+
+    @property
+    def minlen(self):
+        return min(len(p) for p in self.pats)
+
+
 # --------------------------------------------------------------------------
 # harnesses
 
@@ -96,7 +129,8 @@ class Harness:
     """One #[kani::proof]: a template instantiated on a case."""
 
     def __init__(self, name, case, body, unwind, schema, meta, stubs=(), unwindset=None,
-                 timeout=600, mem_gb=12, covers_required=True, functions=(), unsat_ok=()):
+                 timeout=600, mem_gb=12, covers_required=True, functions=(), unsat_ok=(),
+                 should_panic=False, must_unsat=()):
         self.name = name
         self.case = case
         self.body = body
@@ -112,13 +146,28 @@ class Harness:
         # cover witnesses that are unsatisfiable by construction for this case
         # (e.g. "no match is found" when the empty pattern is present)
         self.unsat_ok = set(unsat_ok)
+        # #[kani::should_panic]: the harness must panic on every path; the
+        # witnesses in must_unsat must come back UNSATISFIABLE/UNREACHABLE
+        self.should_panic = should_panic
+        self.must_unsat = set(must_unsat)
 
     def rust(self):
         attrs = ["#[cfg(kani)]", "#[kani::proof]", "#[kani::unwind(%d)]" % self.unwind]
+        if self.should_panic:
+            attrs.append("#[kani::should_panic]")
         for (orig, repl) in self.stubs:
             attrs.append("#[kani::stub(%s, %s)]" % (orig, repl))
         return "%s\npub fn %s() {\n%s\n}\n" % ("\n".join(attrs), self.name, self.body)
 
+
+STUB_PF = [
+    ("memchr::memchr::memchr", "crate::stubs::memchr1"),
+    ("memchr::memchr::memchr2", "crate::stubs::memchr2"),
+    ("memchr::memchr::memchr3", "crate::stubs::memchr3"),
+    ("core::arch::x86_64::__cpuid_count", "crate::stubs::cpuid_stub"),
+    ("memchr::memmem::Finder::find", "crate::stubs::memmem_find"),
+    ("aho_corasick::packed::api::Searcher::find_in", "crate::stubs::packed_unused"),
+]
 
 STUB_MEMCHR = [
     ("memchr::memchr::memchr", "crate::stubs::memchr1"),
@@ -139,6 +188,7 @@ class Result:
         self.reason = ""
         self.failed_checks = []  # [(check name, description, location)]
         self.unsat_covers = []
+        self.sat_covers = []
         self.n_checks = 0
         self.n_covers = 0
         self.n_covers_sat = 0
@@ -191,6 +241,8 @@ def parse_kani_log(text, res):
             errors += 1
         elif status in ("UNSATISFIABLE", "UNREACHABLE") and ".cover." in name:
             res.unsat_covers.append((name, desc))
+        elif status == "SATISFIED" and ".cover." in name:
+            res.sat_covers.append((name, desc))
     # concrete playback blocks
     for blk in text.split("/// Check for `")[1:]:
         hm = re.match(r"(\w+)`: (.*)\n", blk)
@@ -215,6 +267,21 @@ def parse_kani_log(text, res):
     unsupported = [c for c in res.failed_checks if "not currently supported" in c[1] or "unsupported" in c[0]]
     if unsupported:
         res.status, res.reason = "inconclusive", "unsupported construct reached: %s" % (unsupported[0][1],)
+        return
+    if res.h.should_panic:
+        # Kani reports SUCCESSFUL iff at least one panic is reachable and
+        # nothing else failed; "never returns" is the must_unsat witness.
+        leaked = [c for c in res.sat_covers if c[1].strip('"') in res.h.must_unsat]
+        others = [c for c in res.failed_checks if "is not expected to fail" not in c[1] and "expect" not in c[1].lower()
+                  and "Err` value" not in c[1] and "unwrap" not in c[1]]
+        if leaked:
+            res.status, res.failed_checks = "failed", [(c[0], "infallible API %s in a rejected configuration" % c[1], "") for c in leaked]
+            res.reason = res.failed_checks[0][1]
+        elif verdict == "SUCCESSFUL":
+            res.status = "held"
+        else:
+            res.status = "failed" if others else "inconclusive"
+            res.reason = "should_panic harness: verdict %s; %s" % (verdict, (others or res.failed_checks)[:2])
         return
     if verdict == "SUCCESSFUL" and not res.failed_checks:
         bad = [c for c in res.unsat_covers if c[1].strip('"') not in res.h.unsat_ok]
@@ -271,6 +338,12 @@ class Run:
         os.makedirs(self.dir)
         self.facts = {}
         self.notes = []
+        # private snapshot of the hook bodies: edits to /verif/hooks while a
+        # run is in flight must not reach its Kani builds
+        self.hooks = os.path.join(self.dir, "hooks")
+        shutil.copytree(HOOKS, self.hooks)
+        self.env = dict(BASE_ENV)
+        self.env["AHO_CORASICK_VERIF_HOOKS"] = self.hooks
 
     def cleanup(self):
         shutil.rmtree(self.dir, ignore_errors=True)
@@ -331,7 +404,7 @@ class Run:
             return []
         p = sh(["cargo", "kani", "--harness", "inst::" + h.name, "--exact", "--target-dir", tdir,
                 "-Z", "unstable-options", "--cbmc-args", "--show-loops"],
-               cwd=self.crate, check=False, timeout=600)
+               cwd=self.crate, env=self.env, check=False, timeout=600)
         ids = re.findall(r"^Loop (\S+):\n\s+file (\S+) line (\d+) function (.*)$", p.stdout, re.M)
         out = []
         for (pat, idx), bound in h.unwindset.items():
@@ -366,7 +439,7 @@ class Run:
                 os.setsid()
 
             with open(logf, "w") as lf:
-                p = subprocess.Popen(cmd, cwd=self.crate, env=BASE_ENV, stdout=lf, stderr=subprocess.STDOUT,
+                p = subprocess.Popen(cmd, cwd=self.crate, env=self.env, stdout=lf, stderr=subprocess.STDOUT,
                                      preexec_fn=limit)
                 try:
                     p.wait(timeout=h.timeout)
@@ -384,7 +457,7 @@ class Run:
                 # second run for the solver's assignment (concrete playback)
                 cmd2 = cmd[:7] + ["-Z", "concrete-playback", "--concrete-playback=print"] + cmd[7:]
                 with open(logf + ".pb", "w") as lf:
-                    p = subprocess.Popen(cmd2, cwd=self.crate, env=BASE_ENV, stdout=lf, stderr=subprocess.STDOUT,
+                    p = subprocess.Popen(cmd2, cwd=self.crate, env=self.env, stdout=lf, stderr=subprocess.STDOUT,
                                          preexec_fn=limit)
                     try:
                         p.wait(timeout=h.timeout * 2)
